@@ -37,6 +37,7 @@ theorem splitLine_noNL (x : Bytes) (h : NL ∉ x) : splitLine x = (x, []) := by
 def touches : FsAct → Path → Prop
   | .remove p, q => p = q
   | .create p, q => p = q
+  | .openKeep p, q => p = q
   | .write p _, q => p = q
   | .rename s d, q => s = q ∨ d = q
 
@@ -49,6 +50,7 @@ theorem applyAct_frame (st : St) (a : FsAct) (q : Path) (h : ¬ touches a q) :
   cases a with
   | remove p => exact setFs_other _ _ (fun e => h e.symm)
   | create p => exact setFs_other _ _ (fun e => h e.symm)
+  | openKeep p => exact setFs_other _ _ (fun e => h e.symm)
   | write p bs =>
     simp only [applyAct]
     split
@@ -90,10 +92,77 @@ theorem applyActs_clock_le (st : St) (acts : List FsAct) : st.clock ≤ (applyAc
   | nil => exact Nat.le_refl _
   | cons a acts ih => exact Nat.le_trans (applyAct_clock_le st a) (ih _)
 
+/-- overwriting at the cursor: `new ++ old.drop new.length` is what a file shows after `new` has been
+    written over the beginning of `old` -/
+def overlay (new old : Bytes) : Bytes := new ++ old.drop new.length
+
+theorem overlay_nil (new : Bytes) : overlay new [] = new := by simp [overlay]
+
+theorem overlay_step (w bs old : Bytes) :
+    (overlay w old).take w.length ++ bs ++ (overlay w old).drop (w.length + bs.length) =
+      overlay (w ++ bs) old := by
+  simp only [overlay, List.take_left', List.length_append]
+  rw [List.drop_append, List.drop_drop]
+  have h1 : List.drop (w.length + bs.length) w = [] := List.drop_eq_nil_of_le (by omega)
+  have h2 : w.length + (w.length + bs.length - w.length) = w.length + bs.length := by omega
+  rw [h1, h2]; simp
+
+/-- one write at the cursor when the file shows `overlay w old` and the cursor is after `w` -/
+theorem applyAct_write_overlay (st : St) (q : Path) (w bs old : Bytes) (c : Nat)
+    (hf : st.fs q = some ⟨overlay w old, c⟩) (hc : st.cur q = w.length) :
+    (applyAct st (.write q bs)).fs q = some ⟨overlay (w ++ bs) old, c⟩ ∧
+    (applyAct st (.write q bs)).cur q = (w ++ bs).length ∧
+    (applyAct st (.write q bs)).clock = st.clock := by
+  simp only [applyAct, hf, hc, setFs_same, overlay_step, ↓reduceIte, List.length_append, and_self]
+
+/-- the three writes after a (truncating or not) open: the file shows the canonical contents laid
+    over whatever `old` the open left -/
+theorem applyActs_writes_overlay (st : St) (dst : Path) (p : Params) (g body old : Bytes) (c : Nat)
+    (hf : st.fs dst = some ⟨old, c⟩) (hc : st.cur dst = 0) :
+    (applyActs st [.write dst (p.version ++ [NL]), .write dst (p.hash g ++ [NL]), .write dst body]).fs dst =
+      some ⟨overlay (canon p g body) old, c⟩ ∧
+    (applyActs st [.write dst (p.version ++ [NL]), .write dst (p.hash g ++ [NL]), .write dst body]).clock =
+      st.clock := by
+  have h0 : st.fs dst = some ⟨overlay [] old, c⟩ := by simpa [overlay] using hf
+  obtain ⟨f1, c1, k1⟩ := applyAct_write_overlay st dst [] (p.version ++ [NL]) old c h0 (by simpa using hc)
+  obtain ⟨f2, c2, k2⟩ := applyAct_write_overlay _ dst _ (p.hash g ++ [NL]) old c f1 c1
+  obtain ⟨f3, _, k3⟩ := applyAct_write_overlay _ dst _ body old c f2 c2
+  simp only [applyActs, List.foldl_cons, List.foldl_nil]
+  refine ⟨?_, by rw [k3, k2, k1]⟩
+  rw [f3]
+  simp [canon, List.append_assoc]
+
 /-- the three writes produce the canonical file with the stamp of the `create` -/
 theorem applyActs_writeOut_dst (st : St) (dst : Path) (p : Params) (g body : Bytes) :
     (applyActs st (writeOut dst p g body)).fs dst = some ⟨canon p g body, st.clock⟩ := by
-  simp [writeOut, applyActs, applyAct, canon]
+  have h := applyActs_writes_overlay (applyAct st (.create dst)) dst p g body [] st.clock
+    (by simp [applyAct]) (by simp [applyAct])
+  simp only [writeOut, applyActs, List.foldl_cons, List.foldl_nil] at h ⊢
+  rw [h.1, overlay_nil]
+
+theorem applyActs_writeOut_clock (st : St) (dst : Path) (p : Params) (g body : Bytes) :
+    (applyActs st (writeOut dst p g body)).clock = st.clock + 1 := by
+  have h := applyActs_writes_overlay (applyAct st (.create dst)) dst p g body [] st.clock
+    (by simp [applyAct]) (by simp [applyAct])
+  simp only [writeOut, applyActs, List.foldl_cons, List.foldl_nil] at h ⊢
+  rw [h.2]; simp [applyAct]
+
+/-- without truncation the new contents are laid over the old file -/
+theorem applyActs_writeOutKeep_dst (st : St) (dst : Path) (p : Params) (g body : Bytes) :
+    (applyActs st (writeOutKeep dst p g body)).fs dst =
+      some ⟨overlay (canon p g body) (((st.fs dst).map (·.data)).getD []), st.clock⟩ ∧
+    (applyActs st (writeOutKeep dst p g body)).clock = st.clock + 1 := by
+  have h := applyActs_writes_overlay (applyAct st (.openKeep dst)) dst p g body
+    (((st.fs dst).map (·.data)).getD []) st.clock (by simp [applyAct]) (by simp [applyAct])
+  simp only [writeOutKeep, applyActs, List.foldl_cons, List.foldl_nil] at h ⊢
+  refine ⟨h.1, ?_⟩
+  rw [h.2]; simp [applyAct]
+
+theorem writeOutKeep_touches (dst : Path) (p : Params) (g body : Bytes) (q : Path) (h : q ≠ dst) :
+    ∀ a ∈ writeOutKeep dst p g body, ¬ touches a q := by
+  intro a ha
+  simp [writeOutKeep] at ha
+  rcases ha with rfl | rfl | rfl | rfl <;> exact fun e => h e.symm
 
 theorem writeOut_touches (dst : Path) (p : Params) (g body : Bytes) (q : Path) (h : q ≠ dst) :
     ∀ a ∈ writeOut dst p g body, ¬ touches a q := by
@@ -129,6 +198,7 @@ theorem crashCut_isPrefix (acts : List FsAct) (k j : Nat) : CrashPrefix acts (cr
       | write p bs => exact .partialWrite p bs j acts
       | remove p => exact .nil _
       | create p => exact .nil _
+      | openKeep p => exact .nil _
       | rename s d => exact .nil _
     | succ k =>
       cases a <;> exact .cons _ (ih k)
